@@ -30,6 +30,7 @@ func c05(c *Ctx) {
 	publishOrderRule(c, "R4")
 	c05R5(c)
 	c05R6(c)
+	c05R7(c)
 }
 
 func isResetVal(v ssa.Value) bool {
@@ -397,4 +398,96 @@ func c05R6(c *Ctx) {
 		}
 		c.R.Ob(rule, "OnCommit:result=(committed-root, receipts-hash)", okA && okR, c.P.Pos(g.F.Pos()), fname(g), "CommitResult must carry the committed state root and SaveReceipts' hash")
 	}
+}
+
+// c05R7: shared mutable package state. Block execution reads package-level variables (evmConfig, signer
+// constants, worker count ...) while RPC queries and CheckTx run on other goroutines; a package-level
+// variable of the execution packages that is written after initialisation makes the result of a block
+// depend on what else the process is doing (or on what it executed before).
+func c05R7(c *Ctx) {
+	rule := c.R.Rule("R7", "no mutable package state behind execution: a package-level variable of chain/app/evm (the application) or gemmill/state is stored to only by the package initialiser, or the store is in the reviewed table (process-wide switches set once at start-up, the self-clamping worker count); in particular evmConfig, which every block transaction and every RPC query share, is never written", 3)
+	reviewed := map[string]string{
+		"chain/app/evm.validateRoutineCount@chain/app/evm.exeWithCPUParallelVeirfy": "clamped to a constant when out of range (idempotent; R3 shows the value influences only the number of verifier goroutines)",
+	}
+	nglob, nstores := 0, 0
+	for _, rel := range []string{"chain/app/evm", "gemmill/state"} {
+		sp := c.P.SSAPkg(rel)
+		if sp == nil {
+			c.R.Missing(rule, rel)
+			continue
+		}
+		for _, m := range sp.Members {
+			if _, ok := m.(*ssa.Global); ok {
+				nglob++
+			}
+		}
+		for _, fn := range c.P.FuncsOfPkg(rel) {
+			if fn.Blocks == nil || fn.Name() == "init" || strings.HasPrefix(fn.Name(), "init#") {
+				continue
+			}
+			f := c.Fn(fn)
+			for _, b := range fn.Blocks {
+				for _, ins := range b.Instrs {
+					st, ok := ins.(*ssa.Store)
+					if !ok || !f.Live(ins) {
+						continue
+					}
+					g := rootGlobal(st.Addr)
+					if g == nil || g.Pkg == nil || !strings.HasPrefix(g.Pkg.Pkg.Path(), core.Mod+"/") {
+						continue
+					}
+					gp := core.Short(g.Pkg.Pkg.Path())
+					if gp != "chain/app/evm" && gp != "gemmill/state" {
+						continue
+					}
+					nstores++
+					key := gp + "." + g.Name() + "@" + core.Short(fname(f))
+					why, ok := reviewed[key]
+					c.R.Ob(rule, "store:"+key, ok, c.Pos(st), fname(f), "package-level variable written outside the package initialiser: every goroutine of the process (block execution, RPC queries, CheckTx) shares it; "+why)
+				}
+			}
+		}
+	}
+	c.R.Ob(rule, "globals-examined", nglob >= 10, "-", "", fmt.Sprintf("%d package-level variables, %d stores outside initialisers", nglob, nstores))
+	// evmConfig is handed by value to the EVM on both paths
+	if g := globalOf(c, "chain/app/evm", "evmConfig"); g != nil {
+		uses := 0
+		for _, fn := range c.P.FuncsOfPkg("chain/app/evm") {
+			for _, b := range fn.Blocks {
+				for _, ins := range b.Instrs {
+					if ld, isLoad := ins.(*ssa.UnOp); isLoad && rootGlobal(ld.X) == g {
+						uses++
+					}
+				}
+			}
+		}
+		c.R.Ob(rule, "evmConfig:read-by-execution-and-query", uses >= 2, c.P.Pos(g.Pos()), "", fmt.Sprintf("%d reads", uses))
+	} else {
+		c.R.Missing(rule, "chain/app/evm.evmConfig")
+	}
+}
+
+func rootGlobal(v ssa.Value) *ssa.Global {
+	for i := 0; i < 8; i++ {
+		switch x := v.(type) {
+		case *ssa.Global:
+			return x
+		case *ssa.FieldAddr:
+			v = x.X
+		case *ssa.IndexAddr:
+			v = x.X
+		default:
+			return nil
+		}
+	}
+	return nil
+}
+
+func globalOf(c *Ctx, rel, name string) *ssa.Global {
+	sp := c.P.SSAPkg(rel)
+	if sp == nil {
+		return nil
+	}
+	g, _ := sp.Members[name].(*ssa.Global)
+	return g
 }
